@@ -17,6 +17,9 @@ SLICERS = ("::starts_with", "::ends_with", "::get", "::get_mut", "::truncate", "
 
 def check(ctx):
     F = ctx.facts("prod")
+    from props import C26
+    ctx.clause("R-TABLE Serialize for JValue: per-variant serializer table, numbers delegated to Number::serialize (the bytes that are hashed / encoded)")
+    C26.serialize_table(ctx, F)
     ctx.clause("R-TYPE JValue::Object resolves to BTreeMap; R-CFG no preserve_order feature in the resolved graph")
     ctx.clause("R-FLOW/R-CONST value_to_json_cid / raw_value_to_json_cid: BLAKE3 over the canonical bytes, Blake3_256 multihash, CIDv1, codec 0x0200")
     ctx.clause("R-OP/R-TABLE/R-SIBLING verify_raw_value and verify_json_value: codec guard, hash whitelist, whole-digest equality")
